@@ -4,7 +4,7 @@
    They never call the kernels of the model. Extracted and run by the driver on every disagreement between model and
    implementation, and on every line after a proof has broken. *)
 From Coq Require Import List NArith ZArith Arith Bool.
-From V Require Import Model.Kernels Model.TwoLevel Model.Decomp Spec.Bfun Spec.Transform Spec.BddSpec Spec.TwoLevelCost.
+From V Require Import Model.Kernels Model.TwoLevel Model.Decomp Spec.Bfun Spec.Transform Spec.BddSpec Spec.TwoLevelCost Spec.Grammar.
 Import ListNotations.
 Open Scope N_scope.
 
@@ -200,3 +200,55 @@ Definition chk_from_hex (n : nat) (s : list N) (res : option (list N)) : bool :=
   | Some v, Some t => wfb n t && (bigN t =? v)
   | _, _ => false
   end.
+
+(* ---- C12 / C13 / C16: cubes, exclusive cubes and printed text, from the property text.
+   A cube is read by its literals (no use of the model's cube_value / cube_and / ...). *)
+Definition vars32 : list N := map N.of_nat (seq 0 32).
+Definition spec_cube_value (c : cube) (m : N) : bool :=
+  forallb (fun v => implb (N.testbit (cpos c) v) (N.testbit m v) && implb (N.testbit (cneg c) v) (negb (N.testbit m v))) vars32.
+Definition spec_ecube_value (e : ecube) (m : N) : bool :=
+  fold_left (fun acc v => xorb acc (N.testbit (evars e) v && N.testbit m v)) vars32 (exnor e).
+(* every variable of the cube is below k, or the cube is the canonical zero *)
+Definition cube_within (k : nat) (c : cube) : bool :=
+  ((cpos c <? 2 ^ N.of_nat k) && (cneg c <? 2 ^ N.of_nat k)) || cube_eqb c cube_zero.
+Definition ecube_within (k : nat) (e : ecube) : bool := evars e <? 2 ^ N.of_nat k.
+
+Definition chk_cube_value (c : cube) (m : N) (r : bool) : bool := Bool.eqb r (spec_cube_value c m).
+(* AND: the conjunction; the canonical zero cube when the operands conflict *)
+Definition chk_cube_and (k : nat) (a b r : cube) : bool :=
+  if existsb (fun m => spec_cube_value a m && spec_cube_value b m) (dom k)
+  then cube_within k r && forallb (fun m => Bool.eqb (spec_cube_value r m) (spec_cube_value a m && spec_cube_value b m)) (dom k)
+  else cube_eqb r cube_zero.
+Definition chk_cube_intersects (k : nat) (a b : cube) (r : bool) : bool :=
+  Bool.eqb r (existsb (fun m => spec_cube_value a m && spec_cube_value b m) (dom k)).
+Definition chk_cube_implies (k : nat) (a b : cube) (r : bool) : bool :=
+  Bool.eqb r (forallb (fun m => implb (spec_cube_value a m) (spec_cube_value b m)) (dom k)).
+Definition chk_cube_implies_lut (n : nat) (c : cube) (t : list N) (r : bool) : bool :=
+  Bool.eqb r (forallb (fun m => implb (spec_cube_value c m) (val t m)) (dom n)).
+Definition chk_ecube_value (e : ecube) (m : N) (r : bool) : bool := Bool.eqb r (spec_ecube_value e m).
+Definition chk_ecube_xor (k : nat) (a b r : ecube) : bool :=
+  ecube_within k r && forallb (fun m => Bool.eqb (spec_ecube_value r m) (xorb (spec_ecube_value a m) (spec_ecube_value b m))) (dom k).
+Definition chk_ecube_not (k : nat) (a r : ecube) : bool :=
+  ecube_within k r && forallb (fun m => Bool.eqb (spec_ecube_value r m) (negb (spec_ecube_value a m))) (dom k).
+Definition spec_soes_value (es : list ecube) (m : N) : bool := existsb (fun e => spec_ecube_value e m) es.
+Definition chk_soes_or (n : nat) (a b r : list ecube) : bool :=
+  forallb (fun m => Bool.eqb (spec_soes_value r m) (spec_soes_value a m || spec_soes_value b m)) (dom n).
+
+(* printed text: it must lex, evaluate (by the reader of Spec/Grammar.v) to the object's value on every assignment of the
+   given list, and list its literals in strictly increasing index order inside every product (inside the whole text for
+   an exclusive cube) *)
+Definition is_sep (t : token) : bool := is_or t || is_xor t.
+Definition chk_text (bytes : list N) (f : N -> bool) (ms : list N) (whole_increasing : bool) : bool :=
+  match lex bytes with
+  | Some ts =>
+      forallb (fun m => match eval ts m with Some b => Bool.eqb b (f m) | None => false end) ms &&
+      (if whole_increasing then increasing (lit_indices ts)
+       else forallb (fun part => increasing (lit_indices part)) (split is_sep ts))
+  | None => false
+  end.
+(* assignments used when the variables reach beyond a dozen: zero, all ones, every single variable set, every single
+   variable cleared (a sample, documented as such) *)
+Definition sample_assignments : list N :=
+  [0; N.ones 32] ++ map (fun v => 2 ^ v) vars32 ++ map (fun v => N.lxor (N.ones 32) (2 ^ v)) vars32.
+Definition spec_sop_value (cs : list cube) (m : N) : bool := existsb (fun c => spec_cube_value c m) cs.
+Definition spec_esop_value (cs : list cube) (m : N) : bool := fold_left (fun r c => xorb r (spec_cube_value c m)) cs false.
